@@ -91,14 +91,14 @@ class C16(Prop):
             for runner in ("sync", "async"):
                 yield {"program": [g], "known": [["x", 2]], "cfg": cfg, "runner": runner, "ops": {"select": 1, "forced": 1}}
         # (d) an entry point at a node that waits for a signal emitted UPSTREAM of it: the emitter is outside the scope and never runs
-        for _ in range(2):
+        for ep in ("work", rng.choice(["work", "after"])):
             nodes = [fn("warm", [["c", None]], ["w"], {"b": "tag", "t": "warm"}, emits=["ready"]),
                      fn("work", [["v", None]], ["o"], {"b": "sum", "k": 1}, waitFor=["ready"]),
                      fn("after", [["o", None]], ["oo"], {"b": "tag", "t": "after"})]
             if rng.random() < 0.5:
                 nodes.append(fn("side", [["w", None]], ["ws"], {"b": "tag", "t": "side"}))
             rng.shuffle(nodes)
-            g = {"name": "g0", "nodes": nodes, "bound": [], "entrypoints": [rng.choice(["work", "work", "after"])]}
+            g = {"name": "g0", "nodes": nodes, "bound": [], "entrypoints": [ep]}
             cfg = {"onMissing": "ignore", "errMode": "raise", "maxIter": 40}
             for runner in ("sync", "async"):
                 yield {"program": [g], "known": [["c", 1], ["v", 2], ["o", 5]], "cfg": cfg, "runner": runner, "ops": {"entrypoints": 1, "forced": 1}}
